@@ -52,6 +52,9 @@ func Assert(c bool, msg string) {
 	Asserts++
 }
 
+// Reached marks the point where the inputs have been accepted (vacuity guard).
+func Reached() { Asserts++ }
+
 // Known is cond while the known finding id is open and active, else false.
 func Known(id string, cond bool) bool { return active[id] && cond }
 
